@@ -3,14 +3,8 @@
    time offset or combination makes [field]/[vm_compute] fail. *)
 Require Import QArith Qabs List Lia Lra Lqa Field.
 Import ListNotations.
-Require Import IPV.C12.RK IPV.Gen.Gen_C12_Tableau.
+Require Import IPV.C12.RK IPV.Gen.Gen_C12_Tableau IPV.C12.Inst.
 Open Scope Q_scope.
-
-(* the scheme the code implements *)
-Definition CK : scheme := {|
-  s2 := g_stage2; s3 := g_stage3; s4 := g_stage4; s5 := g_stage5; s6 := g_stage6;
-  res := g_result; est := g_errest; x1 := g_exit1; x2 := g_exit2; x3 := g_exit3;
-  t1 := g_time1; t2 := g_time2; t3 := g_time3; t4 := g_time4; t5 := g_time5; t6 := g_time6 |}.
 
 Ltac unfold_gen :=
   unfold g_stage2, g_stage2_restart, g_stage2_after_rk1, g_stage3, g_stage4, g_stage5, g_stage6,
